@@ -13,6 +13,11 @@ fn t<R: std::fmt::Debug>(name: &str, f: impl FnOnce() -> R + std::panic::UnwindS
 }
 
 pub fn main(_a: &vlib::Args) {
+    t("SemanticString(FileName) rfind vs find", || {
+        use iceoryx2_bb_container::semantic_string::SemanticString;
+        let f = iceoryx2_bb_system_types::file_name::FileName::new(b"a_b_c").unwrap();
+        (f.find(b"_"), f.rfind(b"_"))
+    });
     t("slotmap insert_at(head) then insert", || {
         let mut m = SlotMap::<u32>::new(2);
         let a = m.insert_at(SlotMapKey::new(0), 10);
